@@ -425,7 +425,23 @@ func TestGenerated(t *testing.T) {
 			ev.Label("gen:rejected_registrations_attempted_on_mux_under_test")
 		}
 		nreq := rapid.IntRange(1, 10).Draw(t, "nreq")
+		// some tables grow while they are in use: the last routes are registered only after the first requests have
+		// been served (a set of successfully registered routes is what has been registered so far)
+		var later []rm.Route
+		registerAt := -1
+		if len(tb.Routes) == len(routes) && len(routes) > 1 && rapid.IntRange(0, 3).Draw(t, "lateRegistration") == 0 {
+			split := rapid.IntRange(1, len(routes)-1).Draw(t, "registeredAtFirst")
+			later = routes[split:]
+			tb = rh.NewTable(routes[:split])
+			registerAt = rapid.IntRange(1, nreq).Draw(t, "registerRestBeforeRequest")
+			ev.Label("gen:routes_registered_after_requests_were_served")
+		}
 		for i := 0; i < nreq; i++ {
+			if i == registerAt {
+				for _, r := range later {
+					tb.Add(r)
+				}
+			}
 			m := rapid.SampledFrom(reqMethods).Draw(t, "reqmethod")
 			p := genRequestPath(routes).Draw(t, "reqpath")
 			var rawMask uint64
